@@ -26,6 +26,8 @@ CHECKS = {
          "For statement-aligned, mid-token, nested, open-ended, empty and out-of-bounds ranges on the corpus, on templates (every statement pair) and on generated programs: text outside the affected statements is compared byte for byte, affected regions are compared with the whole-file run."),
  "C11": ("exploration", "7 C11", "per-token / per-call-site / per-function-header rule monitor over the re-lexed and re-parsed output for all 80 combinations of the three options",
          "Every quoted string, call site (with its suffix context) and function header of every output is judged against the rule of the configured value on the corpus, 12 templates x 80 combinations x 3 widths, generated programs and mutants."),
+ "C12": ("exploration", "7 C12", "independent model of require grouping / freezing / stable sort vs the per-statement normal-form sequence of the output; comment census",
+         "For pinned programs, every corpus file and seeded require-heavy top levels (with ignore directives, regions and ranges) the output's top-level statement sequence must be exactly the permutation the model computes; with the option off the order must not change."),
  "C10": ("exploration", "7 C10", "byte-level line-ending / indentation / end-of-file monitor on outputs, masked by own-lexer string spans",
          "Every output byte outside string contents is checked against the configured line ending and indent settings for LF/CRLF/mixed inputs."),
 }
